@@ -42,6 +42,9 @@ def shards(tier: str, seed: int) -> List[Dict[str, Any]]:
     ids = [i for i in SHIPPED if i != "Sokoban-v0"]
     for g in range(6):
         out.append({"id": f"registry|shipped{g}", "kind": "shipped", "ids": ids[g::6], "weight": 4.0})
+    # every shipped id made in one process, in reverse registry order: state shared between environment classes or
+    # instances (class-level caches) would make a configuration depend on what was made before
+    out.append({"id": "registry|shipped_reverse_order", "kind": "shipped_reverse", "ids": list(reversed(ids)), "weight": 8.0})
     out.append({"id": "registry|repo_tests_under_contracts", "kind": "pytest", "weight": 2.0})
     return out
 
@@ -200,6 +203,10 @@ def run_ops(rep: Report, rng, count: int) -> None:
         elif u < 0.42:
             eid = str(rng.choice(list(mine)))
             kw2 = {"a": -1}
+            if rng.random() < 0.5:  # the same id spelled with leading zeros in the version is still the same id
+                nm_, v_ = eid.rsplit("-v", 1)
+                eid = f"{nm_}-v{'0' * int(rng.integers(1, 3))}{v_}"
+                rep.count("register_duplicate_noncanonical")
             log.append(["register_duplicate", eid, kw2])
             rep.count("register_duplicate")
             try:
@@ -385,6 +392,38 @@ def run_shipped(rep: Report, ids: List[str], tier: str, rng) -> None:
     rep.notes.append("Sokoban-v0 not explored (needs the DeepMind/HuggingFace dataset: no network)")
 
 
+def run_shipped_reverse(rep: Report, ids: List[str], rng) -> None:
+    import jax
+    import jumanji
+
+    made = {}
+    for env_id in ids:
+        try:
+            made[env_id] = jumanji.make(env_id)
+        except Exception as ex:
+            rep.violation("registry", env_id, "shipped_id_instantiates", {"id": env_id, "error": repr(ex)[:300], "order": "reverse"}, replay={"id": env_id})
+    for env_id, env in made.items():
+        rep.evaluated(1)
+        rep.count("reverse_order_ids")
+        rep.digests.add("rev:" + env_id)
+        st, ts = jax.jit(env.reset)(jax.random.PRNGKey(int(rng.integers(0, 2**31 - 1))))
+        for f in shipped_facts(env_id, env, st, ts):
+            rep.violation("registry", env_id, "shipped_id_documented_configuration", {"id": env_id, "fact": f, "order": "made after all later ids"}, replay={"id": env_id}, qualifier="order_dependent")
+        if env_id == "Sudoku-v0":
+            # "10000 puzzles of mixed difficulties": unlike the very-easy set (>= 46 clues) the mixed set contains
+            # harder puzzles; over 24 keys at least one board must have fewer than 46 clues
+            reset = jax.jit(env.reset)
+            clues = []
+            for k in range(24):
+                s_, t_ = reset(jax.random.PRNGKey(1000 + k))
+                b = np.asarray(t_.observation.board)
+                clues.append(int((b >= 0).sum()))
+            rep.evaluated(1)
+            rep.count("sudoku_mixed_database_checked")
+            if min(clues) >= 46:
+                rep.violation("registry", env_id, "shipped_id_documented_configuration", {"id": env_id, "fact": f"all 24 sampled boards have >= 46 clues (min {min(clues)}): not the mixed database", "order": "made after Sudoku-very-easy-v0"}, replay={"id": env_id}, qualifier="order_dependent")
+
+
 def run_shard(shard: Dict[str, Any], rep: Report) -> None:
     from jmon import contracts
     from jmon.props.c16 import run_repo_tests_under_contracts
@@ -406,6 +445,8 @@ def run_shard(shard: Dict[str, Any], rep: Report) -> None:
         rep.sample({"ids": [gen_id(rng) for _ in range(6)]})
     elif shard["kind"] == "ops":
         run_ops(rep, rng, shard["count"])
+    elif shard["kind"] == "shipped_reverse":
+        run_shipped_reverse(rep, shard["ids"], rng)
     else:
         run_shipped(rep, shard["ids"], tier, rng)
     recs, counts = contracts.drain()
@@ -421,7 +462,7 @@ def run_shard(shard: Dict[str, Any], rep: Report) -> None:
 def floors(tier: str, counters: Dict[str, int], per_env: Dict[str, Dict[str, int]]) -> List[str]:
     missed = []
     need = {"id_ok": 500, "id_malformed": 200, "id_versionless": 100, "id_noncanonical": 50, "register_new": 16, "register_duplicate": 16,
-            "register_malformed": 5, "make_known": 40, "make_unknown": 5, "shipped_ids": 24, "documented_configuration_checked": 24,
+            "register_malformed": 5, "make_known": 40, "make_unknown": 5, "shipped_ids": 24, "documented_configuration_checked": 24, "reverse_order_ids": 24, "register_duplicate_noncanonical": 3,
             "two_makes_steps": 200, "contract:parse_env_id.post": 500}
     for k, n in need.items():
         if counters.get(k, 0) < n:
